@@ -600,7 +600,10 @@ class DataLinkConnection(TransmissionControlObject):
         if rcvd_pdu.name not in self.DLC_PDU_NAMES:
             self.err("non connection mode pdu on data link connection")
             send_pdu = pdu.FrameReject.from_pdu(rcvd_pdu, flags="W", dlc=self)
-            self.close()
+            # The connection is closed when the frame reject pdu is
+            # dequeued. Calling close() here would wait for the peer's
+            # response to a disconnect, in the thread that receives it.
+            self.send_queue.clear()
             self.send_queue.append(send_pdu)
             return
 
